@@ -165,7 +165,7 @@ func (w *worldA) c16ConcurrentBackup(nd *simNode, s Step, backups map[uint32]uin
 		r.Fail("backup-list", "after two concurrent backups the list shows %d new backups", len(fresh))
 	}
 	sort.Slice(fresh, func(i, j int) bool { return fresh[i] < fresh[j] })
-	backups[fresh[0]] = before    // B1 read the store before the insertion could run
+	backups[fresh[0]] = before     // B1 read the store before the insertion could run
 	backups[fresh[1]] = c16Unknown // B2 raced the insertion
 	r.Logf("CBACKUP #%d at %d events, #%d concurrent with an insertion of %d", fresh[0], before, fresh[1], s.K)
 	r.Count("fault.concurrent_backup")
@@ -461,7 +461,9 @@ func (w *worldA) c16Restore(nd *simNode, id uint32, n uint64, how string, more i
 		}
 		idx++
 		var resp interface{}
-		cp := Capture(func() { resp = rn.Apply(&raft.Log{Index: idx, Term: 9, Type: raft.LogCommand, Data: consensus.SimEncodeAdd(ds)}) })
+		cp := Capture(func() {
+			resp = rn.Apply(&raft.Log{Index: idx, Term: 9, Type: raft.LogCommand, Data: consensus.SimEncodeAdd(ds)})
+		})
 		if cp != nil {
 			if cp.Harness {
 				r.Bug("%s\n%s", cp, cp.Stack)
